@@ -71,6 +71,13 @@ pub struct DRun {
     pub reset_at: Vec<usize>,
     /// the current stream reached Z_STREAM_END (in an op or in the tail)
     pub finished: bool,
+    /// the program was cut before this op index: deflateResetKeep was called with unconsumed lookahead in the
+    /// window and the op switches to level 0 (known finding F2: the continuation never ends or aborts, in
+    /// zlib-ng as well); neither the op nor the tail was executed
+    pub f2_cut_at: Option<usize>,
+    /// deflateResetKeep (undocumented) was called while the stream was mid-flight (lookahead, open block,
+    /// pending output, buffered symbols or bits): what follows is garbage in both implementations
+    pub resetkeep_dirty: bool,
 }
 
 pub struct OpEnv {
@@ -100,10 +107,16 @@ pub fn run_dops<Zx: Z>(level: i32, method: i32, wbits_arg: i32, mem_level: i32, 
 /// `skip_prime_when_pending`: see the comment at the Prime arm (lock-step comparisons only)
 #[allow(clippy::too_many_arguments)]
 pub fn run_dops_ex<Zx: Z>(level: i32, method: i32, wbits_arg: i32, mem_level: i32, strategy: i32, ops: &[DOp], env: &OpEnv, guarded: bool, probe: bool, tail_room: usize, strict_pre: bool, skip_prime_when_pending: bool, rec: Option<&mut Case>) -> Result<DRun, String> {
+    run_dops_full::<Zx>(level, method, wbits_arg, mem_level, strategy, ops, env, guarded, probe, tail_room, strict_pre, skip_prime_when_pending, None, rec)
+}
+
+/// `cut_before`: stop before this op index (used to mirror an F2 cut decided on the zlib-rs run)
+#[allow(clippy::too_many_arguments)]
+pub fn run_dops_full<Zx: Z>(level: i32, method: i32, wbits_arg: i32, mem_level: i32, strategy: i32, ops: &[DOp], env: &OpEnv, guarded: bool, probe: bool, tail_room: usize, strict_pre: bool, skip_prime_when_pending: bool, cut_before: Option<usize>, rec: Option<&mut Case>) -> Result<DRun, String> {
     let mut rec = rec;
     unsafe {
         let mut s = if guarded { Strm::guarded(0xC3) } else { Strm::plain() };
-        let mut run = DRun { obs: vec![], tail_calls: 0, tail_ended: false, total_out: vec![], reset_at: vec![], finished: false };
+        let mut run = DRun { obs: vec![], tail_calls: 0, tail_ended: false, total_out: vec![], reset_at: vec![], finished: false, f2_cut_at: None, resetkeep_dirty: false };
         let r = Zx::deflateInit2_(s.p(), level, method, wbits_arg, mem_level, strategy, Zx::zlibVersion(), STREAM_SIZE);
         run.obs.push(Obs { ret: r as i64, din: 0, dout: 0, out: vec![], aux: [0, 0] });
         if r != Z_OK {
@@ -156,12 +169,20 @@ pub fn run_dops_ex<Zx: Z>(level: i32, method: i32, wbits_arg: i32, mem_level: i3
             };
         }
 
+        let mut cur_level = if level == -1 { 6 } else { level };
         for (oi, op) in ops.iter().enumerate() {
             let mut o = Obs { ret: 0, din: 0, dout: 0, out: vec![], aux: [0, 0] };
+            if let DOp::Params(l, _) = *op {
+                if live && (cut_before == Some(oi) || (Zx::IS_RS && resetkeep_with_lookahead && l == 0 && cur_level != 0)) {
+                    run.f2_cut_at = Some(oi);
+                    break;
+                }
+            }
             match *op {
                 DOp::Deflate { flush, inn, room } => {
                     // documented precondition: once Z_FINISH has been requested no further input may be supplied
                     let add = if finish_started { 0 } else if inn == usize::MAX { 300 } else { inn };
+                    // (the arena holds 64 KiB of input)
                     if flush == Z_FINISH && live {
                         finish_started = true;
                     }
@@ -227,6 +248,9 @@ pub fn run_dops_ex<Zx: Z>(level: i32, method: i32, wbits_arg: i32, mem_level: i3
                         if !matches!(ret, Z_OK | Z_BUF_ERROR | Z_STREAM_ERROR) {
                             return Err(format!("{}: op {oi} {} returned undocumented {}", Zx::NAME, op.tag(), rc_name(ret)));
                         }
+                        if ret == Z_OK {
+                            cur_level = if l == -1 { 6 } else { l };
+                        }
                     }
                 }
                 DOp::Tune(a, b, c, d) => o.ret = Zx::deflateTune(s.p(), a, b, c, d) as i64,
@@ -289,14 +313,21 @@ pub fn run_dops_ex<Zx: Z>(level: i32, method: i32, wbits_arg: i32, mem_level: i3
                         finish_started = false;
                         deflate_called = false;
                         dirty_prime = false;
+                        if matches!(op, DOp::Reset) {
+                            resetkeep_with_lookahead = false;
+                        }
                         pending_in.clear();
                     }
                 }
                 DOp::ResetKeep => {
                     if Zx::IS_RS && live {
                         if let Some(ds) = zlib_rs::deflate::DeflateStream::from_stream_mut(s.p() as *mut _) {
-                            if zlib_rs::deflate::verif_deflate_state(ds)[7] != 0 {
+                            let st = zlib_rs::deflate::verif_deflate_state(ds);
+                            if st[7] != 0 {
                                 resetkeep_with_lookahead = true;
+                            }
+                            if st[2] != 0 || st[4] != 0 || st[5] != 0 || st[7] != 0 || st[10] != 0 {
+                                run.resetkeep_dirty = true;
                             }
                         }
                     }
@@ -307,6 +338,9 @@ pub fn run_dops_ex<Zx: Z>(level: i32, method: i32, wbits_arg: i32, mem_level: i3
                         finish_started = false;
                         deflate_called = false;
                         dirty_prime = false;
+                        if matches!(op, DOp::Reset) {
+                            resetkeep_with_lookahead = false;
+                        }
                         pending_in.clear();
                     }
                 }
@@ -367,7 +401,7 @@ pub fn run_dops_ex<Zx: Z>(level: i32, method: i32, wbits_arg: i32, mem_level: i3
         run.finished = finished;
         // default tail: Finish with fresh `tail_room`-byte rooms until stream end
         if live {
-            if !finished {
+            if !finished && run.f2_cut_at.is_none() {
                 let cap = 4 * (pending_in.len() + 70_000) / tail_room.max(1) + 4096;
                 let mut stalls = 0;
                 loop {
